@@ -64,7 +64,8 @@ def gen_op(rng, wv, allow=None, new_x_container=True):
         if op == "append_one_sample":
             if n >= 2 and nr >= 2 and n < MAX_LEN:
                 flag = bool(rng.integers(0, 2))
-                return {"op": op, "args": [], "kw": {"make_periodic": [flag, np.bool_(flag), int(flag)][int(rng.integers(0, 3))]}}
+                return {"op": op, "args": [], "kw": {"make_periodic": [flag, np.bool_(flag), int(flag)][int(rng.integers(0, 3))]},
+                        "omit_default": bool(rng.integers(0, 2))}
         elif op == "interpolate":
             if 4 <= n <= SPLINE_MAX:
                 method = ["linear", "constant", "cubic", "spline"][int(rng.integers(0, 4))]
@@ -201,6 +202,8 @@ def materialise(op):
 
 def apply(wv, op):
     name, args, kw, owned = materialise(op)
+    if name == "append_one_sample" and kw.get("make_periodic") is False and op.get("omit_default"):
+        kw = {}                          # documented default: make_periodic=False
     if "np_seed" in op:
         np.random.seed(op["np_seed"])
     getattr(wv, name)(*args, **kw)
